@@ -16,7 +16,7 @@ def generate(T, tier):
     return {
         "harnesses": hs,
         "groups": {"main": {"features": ["c17"], "timeout_s": 1800},
-                   "stub": {"features": ["c17"], "timeout_s": 1800, "unwindset": [["try_from_fn_erased", 392]], "kani_args": ["-Z", "stubbing"]}},
+                   "stub": {"features": ["c17"], "est_gb": 6, "timeout_s": 1800, "unwindset": [["try_from_fn_erased", 392]], "kani_args": ["-Z", "stubbing"]}},
         "level": "model_checking",
         "functions": ["rtcm_rs::util::Df88591String::{from_iter,from,push,try_push,chars,iter,len}", "rtcm_rs::util::ArrayString::{from_iter,try_push,deref}",
                       "df::dfs::df_msg1029_utf8_str::{encode,decode}"],
